@@ -54,6 +54,19 @@ class C25(Check):
                 # handed out on the strength of a damaged answer
                 case["damage"] = rng.choice([rng.randint(1, 3 * n + 2), "probe", "probe"])
             out.append(case)
+        rng = random.Random(self.seed + 25)      # its own stream: the cases above stay what they were
+        for k in range(12 if self.tier == "quick" else 150):
+            # more terminals than datagrams fit into one frame (15): the concurrent probes spill over into further frames
+            n = rng.randint(16, 34)
+            lo = 1000
+            hi = lo + n + rng.randint(0, 3)
+            pre = [rng.choice([0, 0, rng.randint(lo, hi), rng.randint(lo, hi + 50)]) for _ in range(n)]
+            seen = set()
+            for i, a in enumerate(pre):
+                if a in seen:
+                    pre[i] = 0
+                seen.add(a)
+            out.append({"pre": pre, "range": (lo, hi), "seed": rng.randrange(1 << 30), "mode": rng.choice(["gather", "gather", "scan"])})
         return out
 
     def run_impl(self, case):
@@ -233,7 +246,7 @@ class C25(Check):
                 for n in (2, 3, 5, 8) for s in range(25) for m in ("gather", "scan")]
 
     def rule(self):
-        return ("buses of 1-8 terminals, each unaddressed or pre-assigned (inside or outside the range), address range only 0-3 larger than the terminal count so that "
+        return ("buses of 1-8 terminals (and some of 16-34: more concurrent probes than the 15 datagrams of a frame), each unaddressed or pre-assigned (inside or outside the range), address range only 0-3 larger than the terminal count so that "
                 "draws collide, concurrent assigned_address tasks (or scan_serial_numbers, also after addresses were reserved ahead and after a second connect() of the same master object), scripted randint and random response delays; 30% of the concurrent cases with one response frame cut short (requests in it may fail, addresses handed out are still checked); non-trivial = at least two unaddressed terminals")
 
     def distribution(self, cases, observed):
